@@ -240,7 +240,32 @@ func TestVerifRace(t *testing.T) {
 		}
 		return out
 	}
-	all := func(i int) string { return dumpLoad(i) + record(i) + signVerify(i) + dsse(i) + rules(i) }
+	// one read-only configuration shared by all callers: slices built the usual way, with spare capacity
+	sharedExcludes := append(make([]string, 0, 8), "*.tmp", "*.bak")
+	sharedAlgs := append(make([]string, 0, 8), "sha256")
+	sharedCmd := append(make([]string, 0, 8), "true")
+	runStep := func(i int) string {
+		strip := append(make([]string, 0, 4), dirs[i]+"/")
+		paths := append(make([]string, 0, 4), dirs[i]+"/sub")
+		md, err := InTotoRun(fmt.Sprintf("step-%d", i), dirs[i], paths, paths, sharedCmd, vhEdKey(i%3, true), sharedAlgs, sharedExcludes, strip, true, false, i%2 == 0)
+		if err != nil {
+			return "run error: " + err.Error()
+		}
+		l, _ := md.GetPayload().(Link)
+		pre, err := InTotoRecordStart(fmt.Sprintf("rec-%d", i), paths, vhEdKey(i%3, true), sharedAlgs, sharedExcludes, strip, false, false, false)
+		if err != nil {
+			return "start error: " + err.Error()
+		}
+		fin, err := InTotoRecordStop(pre, paths, vhEdKey(i%3, true), sharedAlgs, sharedExcludes, strip, false, false, false)
+		if err != nil {
+			return "stop error: " + err.Error()
+		}
+		fl, _ := fin.GetPayload().(Link)
+		return vRender(len(l.Materials)) + vRender(len(l.Products)) + vRender(l.Products["sub/real.txt"]["sha256"]) + vRender(len(fl.Products)) + vRender(len(sharedExcludes)) + vRender(len(md.Sigs()))
+	}
+	all := func(i int) string {
+		return dumpLoad(i) + record(i) + signVerify(i) + dsse(i) + rules(i) + runStep(i)
+	}
 	// the concurrent phase comes first, so that lazily filled package-level state is still cold
 	conc := make([][]string, n)
 	start := make(chan struct{})
